@@ -69,6 +69,21 @@ class Selection:
             raise ToolError("MC_Selection (behaviours) failed:\n" + out[-3000:])
         bp = os.path.join(d, "beh.ndjson")
         nbeh = behaviours_from(out, bp)
+        # second family of behaviours: start from three sheets with any of them selected, sheet-level
+        # alphabet (select / add / duplicate / delete / undo / redo), one step deeper
+        cfg3 = os.path.join(d, "beh3.cfg")
+        with open(cfg3, "w") as f:
+            f.write(open(os.path.join(SPEC, "MC_Selection_beh3.cfg")).read().replace("MaxSteps = 4", f"MaxSteps = {steps + 1}"))
+        rc, out3, dt3 = tlc("MC_Selection.tla", cfg3, os.path.join(d, "m2b"), workers=8, timeout=1500)
+        stb3 = tlc_stats(out3)
+        if stb3 is None or "Error:" in out3:
+            raise ToolError("MC_Selection (3-sheet behaviours) failed:\n" + out3[-3000:])
+        bp3 = os.path.join(d, "beh3.ndjson")
+        nbeh += behaviours_from(out3, bp3)
+        with open(bp, "a") as f:
+            f.write(open(bp3).read())
+        stb = {"distinct": stb["distinct"] + stb3["distinct"], "generated": stb["generated"] + stb3["generated"]}
+        dt += dt3
         rdir = os.path.join(d, "replay")
         rr, dt2 = icverif(["behreplay", "--family", "selection", "--in", bp, "--out", rdir])
         res["s2i"] = {"behaviours": nbeh, "steps": steps, "steps_executed": rr["steps_executed"], "mismatches": rr["mismatches"],
@@ -170,9 +185,14 @@ class Structure:
                         if n == 40:
                             samples.append(json.loads(line))
                             break
+            subj = None
             for v in tla_tuple_lines(out, "VIOL"):
                 _, l, prop, why, kind, r = v[:6]
                 res["i2s"]["violations_printed"] += 1
+                if kind in ("undo", "redo"):
+                    if subj is None:
+                        subj, _ = fam_history.mirror([json.loads(x) for x in open(os.path.join(tdir, "hist.ndjson"))])
+                    kind = f"{kind}:{subj.get(l, '')}"
                 sig = f"C27|{why}|{kind}"
                 if sig in seen:
                     seen[sig]["count"] += 1
